@@ -151,6 +151,50 @@ func coqStr(s string) string {
 	return "[" + strings.Join(parts, "; ") + "]"
 }
 
+var ttCodes map[string]int
+
+// ttCode resolves tokenizers.Symbol / tokenizers.Eol ... to its iota value in tokenizers/TokenType.go
+func ttCode(root, name string) int {
+	if ttCodes == nil {
+		ttCodes = map[string]int{}
+		blocks := iotaConsts(parse(root, "tokenizers/TokenType.go"))
+		if len(blocks) != 1 {
+			fail("TokenType.go: expected one const block")
+		}
+		for i, n := range blocks[0] {
+			ttCodes[n] = i
+		}
+	}
+	name = strings.TrimPrefix(name, "tokenizers.")
+	c, ok := ttCodes[name]
+	if !ok {
+		fail("unknown token type " + name)
+	}
+	return c
+}
+
+// stateCode numbers the tokenizer states a character range can be handed to
+func stateCode(e string) int {
+	switch e {
+	case "nil":
+		return 0
+	case "c.SymbolState()":
+		return 1
+	case "c.WhitespaceState()":
+		return 2
+	case "c.WordState()":
+		return 3
+	case "c.NumberState()":
+		return 4
+	case "c.QuoteState()":
+		return 5
+	case "c.CommentState()":
+		return 6
+	}
+	fail("SetCharacterState with an unexpected state expression " + e)
+	return -1
+}
+
 func main() {
 	root := os.Args[1]
 	var sb strings.Builder
@@ -163,13 +207,25 @@ func main() {
 	if len(ops) != len(opTypes) {
 		fail("operators/operatorTypes length mismatch")
 	}
-	sb.WriteString("Definition operator_table : list (list Z * list Z) := [\n")
+	etBlocks := iotaConsts(parse(root, "calculator/parsers/ExpressionTokenType.go"))
+	if len(etBlocks) != 1 {
+		fail("ExpressionTokenType.go: expected one const block")
+	}
+	etCode := map[string]int{}
+	for i, n := range etBlocks[0] {
+		etCode[n] = i
+	}
+	sb.WriteString("Definition operator_table : list (list Z * Z) := [\n")
 	for i := range ops {
 		sep := ";"
 		if i == len(ops)-1 {
 			sep = ""
 		}
-		sb.WriteString(fmt.Sprintf("  (%s, %s)%s  (* %q -> %s *)\n", coqStr(ops[i]), coqStr(opTypes[i]), sep, ops[i], opTypes[i]))
+		code, ok := etCode[opTypes[i]]
+		if !ok {
+			fail("operatorTypes: unknown expression token type " + opTypes[i])
+		}
+		sb.WriteString(fmt.Sprintf("  (%s, %d)%s  (* %q -> %s *)\n", coqStr(ops[i]), code, sep, ops[i], opTypes[i]))
 	}
 	sb.WriteString("].\n\n")
 
@@ -186,19 +242,16 @@ func main() {
 	sb.WriteString("].\n\n")
 
 	// 3. iota blocks
-	for _, spec := range []struct{ file, name string }{{"tokenizers/TokenType.go", "token_types"}, {"calculator/parsers/ExpressionTokenType.go", "expr_token_types"}, {"mustache/parsers/MustacheTokenType.go", "mustache_token_types"}, {"variants/VariantType.go", "variant_types"}} {
+	for _, spec := range []struct{ file, name string }{{"tokenizers/TokenType.go", "tt"}, {"calculator/parsers/ExpressionTokenType.go", "et"}, {"mustache/parsers/MustacheTokenType.go", "mt"}, {"variants/VariantType.go", "vt"}} {
 		blocks := iotaConsts(parse(root, spec.file))
 		if len(blocks) != 1 {
 			fail(spec.file + ": expected one const block")
 		}
-		sb.WriteString(fmt.Sprintf("Definition %s : list (list Z) := [", spec.name))
+		sb.WriteString(fmt.Sprintf("(* %s: %s *)\n", spec.file, strings.Join(blocks[0], " ")))
 		for i, n := range blocks[0] {
-			if i > 0 {
-				sb.WriteString("; ")
-			}
-			sb.WriteString(coqStr(n))
+			sb.WriteString(fmt.Sprintf("Definition %s_%s : Z := %d.\n", spec.name, n, i))
 		}
-		sb.WriteString(fmt.Sprintf("].  (* %s *)\n", strings.Join(blocks[0], " ")))
+		sb.WriteString(fmt.Sprintf("Definition %s_count : Z := %d.\n", spec.name, len(blocks[0])))
 	}
 	sb.WriteString("\n")
 
@@ -209,7 +262,7 @@ func main() {
 		{"csv/CsvSymbolState.go", "NewCsvSymbolState", "csv_symbols"},
 		{"mustache/tokenizers/MustacheTokenizer.go", "NewMustacheTokenizer", "mustache_symbols"}} {
 		calls := callsIn(parse(root, spec.file), spec.fn, "Add")
-		sb.WriteString(fmt.Sprintf("Definition %s : list (list Z * list Z) := [", spec.name))
+		sb.WriteString(fmt.Sprintf("Definition %s : list (list Z * Z) := [", spec.name))
 		for i, args := range calls {
 			if len(args) != 2 {
 				fail(spec.fn + ": Add with unexpected arity")
@@ -222,7 +275,7 @@ func main() {
 			if i > 0 {
 				sb.WriteString("; ")
 			}
-			sb.WriteString(fmt.Sprintf("(%s, %s)", coqStr(s), coqStr(exprString(args[1]))))
+			sb.WriteString(fmt.Sprintf("(%s, %d)", coqStr(s), ttCode(root, exprString(args[1]))))
 		}
 		sb.WriteString("].\n")
 	}
@@ -234,7 +287,7 @@ func main() {
 		{"tokenizers/generic/GenericTokenizer.go", "NewGenericTokenizer", "generic_chartable"},
 		{"mustache/tokenizers/MustacheTokenizer.go", "NewMustacheTokenizer", "mustache_chartable"}} {
 		calls := callsIn(parse(root, spec.file), spec.fn, "SetCharacterState")
-		sb.WriteString(fmt.Sprintf("Definition %s : list (Z * Z * list Z) := [", spec.name))
+		sb.WriteString(fmt.Sprintf("Definition %s : list (Z * Z * Z) := [", spec.name))
 		for i, args := range calls {
 			a, ok1 := runeVal(args[0])
 			b, ok2 := runeVal(args[1])
@@ -244,7 +297,7 @@ func main() {
 			if i > 0 {
 				sb.WriteString(";\n    ")
 			}
-			sb.WriteString(fmt.Sprintf("(%d, %d, %s) (* %s *)", a, b, coqStr(exprString(args[2])), exprString(args[2])))
+			sb.WriteString(fmt.Sprintf("(%d, %d, %d) (* %s *)", a, b, stateCode(exprString(args[2])), exprString(args[2])))
 		}
 		sb.WriteString("].\n")
 	}
